@@ -107,6 +107,8 @@ def gen_case(rng):
     base.update({'opts': opts, 'copy': rng.random() < 0.5, 'hseed': rng.getrandbits(32)})
     # history: the same --copy name asked for again (re-run of the command, or a second tuning of the copy) with a filter that would remove something
     base['symlinked'] = rng.random() < 0.3
+    if rng.random() < 0.2:
+        base['stray_backup'] = rng.choice(['.bak', '.bak', '.orig', '~', '.old'])
     if rng.random() < 0.5:
         base['uni_name'] = rng.choice(['_José', '_пароли', '_ñ', '_中'])
         base['narrow_stdout'] = rng.choice([None, 'ascii', 'ascii', 'latin-1'])
@@ -140,6 +142,13 @@ def check_case(run, case, use_cli=False):
         g0 = os.path.join(path, 'Grammar', 'grammar.txt')
         os.replace(g0, shared)
         os.symlink(shared, g0)
+    if case.get('stray_backup'):
+        # the user's own safety copy of an older state of the list, kept beside it under a usual name: another file of the ruleset, nothing the tool owns
+        g_ = os.path.join(path, 'Grammar', 'grammar.txt')
+        with open(g_, 'rb') as f_:
+            cur = f_.read()
+        with open(g_ + case['stray_backup'], 'wb') as f_:
+            f_.write(b'A9D9\t0.5\n' + cur + b'M\t0.25\nK4K4\t0.125\n')
     try:
         repo.scratch()
         import edit_rules as er
